@@ -443,6 +443,53 @@ def _logm_replay(ir, case, vals):
 
 
 
+def check_variant_dispatch(run, ir, zm, m, nper, mask):
+    """variant 1 of a two-variant model whose variants differ in a PARAMETER (hence in solution and steady state) is filtered and smoothed
+    like the single-variant model with variant 1's values (for which the obligations above decide data reproduction and the equations)"""
+    ms = _mask_str(mask, len(zm.mvars), nper)
+    key = f"variants:{zm.name}:T={nper}:mask={ms}"
+    case = dict(kind="variants", model=zm.name, nper=nper, mask=ms, deviation=False)
+    pname = sorted(zm.params)[0]
+    p0 = float(zm.params[pname])
+    start = ir.qq(2020, 1)
+    span = start >> (start + nper - 1)
+    db = _data_db(ir, zm, start, nper, mask)
+    m2 = fo.build_model(ir, zm, solve=False, **STDS[zm.name])
+    m2.alter_num_variants(2)
+    m2.assign(**{pname: [p0, 0.8 * p0]})
+    m2.steady(); m2.solve()
+    f1 = fo.build_model(ir, zm, **dict(STDS[zm.name], **{pname: 0.8 * p0}))
+    try:
+        with kf.KalmanLift(ir, zm.mvars) as L2, S.Path() as path2:
+            two = m2.kalman_filter(db, span, deviation=False)
+        with kf.KalmanLift(ir, zm.mvars) as L1, S.Path() as path1:
+            one = f1.kalman_filter(db, span, deviation=False)
+    except S.SymbolicBranchError:
+        raise
+    except Exception as exc:
+        run.counterexample(key, f"smooth:variants:raises:{zm.name}", f"two-variant kalman_filter raises {type(exc).__name__}: {str(exc)[:120]}", dict(case, values={}))
+        return
+    claims = []
+    for kind in ("predict_med", "update_med", "smooth_med"):
+        for n in list(zm.tvars) + list(zm.tshocks) + list(zm.mshocks):
+            if n not in two[kind] or n not in one[kind]:
+                continue
+            a_ser, b_ser = two[kind][n], one[kind][n]
+            for k in range(nper):
+                per = start + k
+                def cell_of(ser, variant):
+                    if ser.start is None or per < ser.start or per > ser.end or ser.data.shape[1] <= variant:
+                        return None
+                    return _cell_term(ser.data[per - ser.start, variant])
+                a, b = cell_of(a_ser, 1), cell_of(b_ser, 0)
+                if (a is None) != (b is None):
+                    run.counterexample(key, f"smooth:variants:{zm.name}", f"{kind}[{n}]@{k}: missing in one of the two runs", dict(case, values={}))
+                    return
+                if a is not None:
+                    claims.append((f"{kind}:{n}@{k}", a, b))
+    _decide(run, key, f"smooth:variants:{zm.name}", case, claims, dict(L2.cap["syms"]), [path1, path2])
+
+
 def main(run):
     ir = load_irispie()
     run.extra["proxy_selftest_checks"] = npproxy.selftest()
@@ -454,6 +501,7 @@ def main(run):
     ]
     run.bounds["structures"] = ("zoo models with a measurement block (nk3, ar2m, ur_drift with a unit root under fixed_unknown; pc_const in thorough); deviation in {True,False}; T=3 periods; "
                                 f"missing-data masks: {'5 representative masks' if run.tier == 'quick' else 'every non-empty mask'} per model; stds fixed")
+    run.bounds["variants"] = "two-variant models (ar2m, nk3) whose second variant has a different parameter value: its predicted/updated/smoothed means equal those of the single-variant model"
     run.bounds["log_model"] = "logm: log transition variable y, log measurement variable oy with a measurement shock, z and oz in levels; same masks; deviation in {True,False}; oy in [1/4,4]"
     run.bounds["values"] = "every observed cell an independent real in [-1,1]; tolerance 1e-8 (gains computed by float LAPACK)"
     run.stubs += ["numpy.linalg.inv/det applied to concrete (data-independent) covariance matrices through ground-concretising shims",
@@ -474,6 +522,16 @@ def main(run):
                     run.unknown(f"{zm.name}:{_mask_str(mask, len(zm.mvars), nper)}:dev={deviation}", exc)
                 except Exception as exc:
                     run.error(f"{zm.name}:{_mask_str(mask, len(zm.mvars), nper)}:dev={deviation}", exc)
+    for name in ("ar2m", "nk3"):
+        zm, m = _model(ir, name)
+        masks = _masks(len(zm.mvars), nper, run.tier)
+        for mask in (masks[:2] if run.tier == "quick" else masks[:6]):
+            try:
+                check_variant_dispatch(run, ir, zm, m, nper, mask)
+            except S.SymbolicBranchError as exc:
+                run.unknown(f"variants:{zm.name}:{_mask_str(mask, len(zm.mvars), nper)}", exc)
+            except Exception as exc:
+                run.error(f"variants:{zm.name}:{_mask_str(mask, len(zm.mvars), nper)}", exc)
     mlog = _logm_model(ir)
     for mask in _masks(2, nper, run.tier):
         for deviation in (False, True):
@@ -490,6 +548,39 @@ def replay(case):
     ir = load_irispie()
     if case.get("kind") == "logm":
         return _logm_replay(ir, case, {k: float(Fraction(a, b)) for k, (a, b) in case.get("values", {}).items()})
+    if case.get("kind") == "variants":
+        zm = zoo.by_name(case["model"])
+        nper = case["nper"]
+        rows = case["mask"].split("/")
+        mask = {(r, t): rows[r][t] == "o" for r in range(len(zm.mvars)) for t in range(nper)}
+        vals = {k: float(Fraction(a, b)) for k, (a, b) in case.get("values", {}).items()}
+        start = ir.qq(2020, 1)
+        span = start >> (start + nper - 1)
+        db = _data_db(ir, zm, start, nper, mask, values=vals)
+        pname = sorted(zm.params)[0]
+        p0 = float(zm.params[pname])
+        m2 = fo.build_model(ir, zm, solve=False, **STDS[zm.name])
+        m2.alter_num_variants(2); m2.assign(**{pname: [p0, 0.8 * p0]}); m2.steady(); m2.solve()
+        f1 = fo.build_model(ir, zm, **dict(STDS[zm.name], **{pname: 0.8 * p0}))
+        try:
+            two = m2.kalman_filter(db, span, deviation=False)
+            one = f1.kalman_filter(db, span, deviation=False)
+        except Exception as exc:
+            return True, f"kalman_filter raises {type(exc).__name__}: {exc}"
+        worst, msg = 0.0, "variant 1 equals the single-variant model"
+        for kind in ("predict_med", "update_med", "smooth_med"):
+            for n in list(zm.tvars) + list(zm.tshocks) + list(zm.mshocks):
+                if n not in two[kind] or n not in one[kind]:
+                    continue
+                a = np.asarray(two[kind][n].get_data(span), dtype=float)
+                b = np.asarray(one[kind][n].get_data(span), dtype=float)
+                if a.shape[1] < 2:
+                    return True, f"{kind}[{n}] has one variant only"
+                d = np.abs(a[:, 1] - b[:, 0])
+                d = float(np.nanmax(d)) if np.isfinite(d).any() else 0.0
+                if d > worst:
+                    worst, msg = d, f"{kind}[{n}]: variant 1 differs from the single-variant model by {d!r}"
+        return worst > 1e-7, msg
     zm, m = _model(ir, case["model"])
     nper, deviation = case["nper"], case["deviation"]
     rows = case["mask"].split("/")
